@@ -9,7 +9,7 @@ from pathlib import PurePosixPath
 from typing import List, Tuple
 
 os.environ.setdefault("NUMBA_DISABLE_JIT", "1")
-sys.path.insert(0, "/repo")
+sys.path.insert(0, os.environ.get("VERIF_REPO", "/repo"))
 import sopht.utils.restart_sim as rs  # noqa: E402
 
 LO = int(os.environ.get("C18_INDEX_LO", "0"))
